@@ -70,10 +70,16 @@ def unit_code(name: str, prefix: Optional[str]) -> str:
 FURTHER = [False]
 
 
-def replay(sc: str, dc: str, C: Fraction, D: Fraction, what: str, kind: str = "float") -> str:
+def replay(sc: str, dc: str, C: Fraction, D: Fraction, what: str, kind: str = "float",
+           extra: Tuple = ()) -> str:
     mags = {"float": "(300.0, 0.0, -40.0, 1.5, -1000.0)",
             "int": "(300, 0, -40, 2, -1000)",
             "dec": "(Decimal('300'), Decimal('0'), Decimal('-40'), Decimal('1.5'), Decimal('-1000'))"}[kind]
+    if extra:
+        # a conversion that branches on the magnitude: one magnitude per branch (solver models)
+        from engine.work import lit
+
+        mags = mags[:-1] + ", " + ", ".join(lit(kind, f) for f in extra) + ")"
     pre = """
 from measured import Temperature
 Temperature.scale(100 * measured.si.Kelvin, "c10 scale on kelvin", "c10sk")
@@ -87,6 +93,13 @@ C, D = {float(C)!r}, {float(D)!r}   # exact affine definition through kelvin: ta
 bad = []
 for m in {mags}:   # magnitudes of the numeric type the obligation was about
     got = (m * src).in_unit(dst)
+    if isinstance(m, Decimal) and isinstance(got.magnitude, Decimal) and {bool(extra)!r}:
+        # Decimal arithmetic carries 28 digits: against the exact rational definition
+        from fractions import Fraction
+        CE, DE = Fraction({C.numerator}, {C.denominator}), Fraction({D.numerator}, {D.denominator})
+        wantE = CE * Fraction(m) + DE
+        if abs(Fraction(got.magnitude) - wantE) > Fraction(1, 10 ** 15) * (abs(CE * Fraction(m)) + abs(DE)):
+            bad.append(('value (Decimal, exact definition)', str(m), str(got.magnitude), float(wantE)))
     m = float(m)
     want = C * m + D
     back = got.in_unit(src)
@@ -167,7 +180,8 @@ def worker(task: Tuple) -> Dict[str, Any]:
                     # the result is not one affine map of the magnitude: a candidate, judged by the replay
                     acc.out["viol"].append((f"C10:not-affine:{s}->{d}" + ("" if kind == "float" else f":{kind}"),
                                             f"{label} ({kind} magnitudes): the result is not an affine map of "
-                                            f"the magnitude ({cv.outcome})", replay(sc, dc, C, D, "value", kind), "soft"))
+                                            f"the magnitude ({cv.outcome})",
+                                            replay(sc, dc, C, D, "value", kind, tuple(cv.fork_models)), "soft"))
                     continue
                 acc.out["viol"].append((f"C10:raises:{s}->{d}", f"{label} raises {cv.outcome}",
                                         replay(sc, dc, C, D, "raises", kind)))
